@@ -37,7 +37,7 @@ def linearity(op: Any, rng: Any) -> None:
 
 
 def case(rng: Any, ctx: Ctx, index: int) -> None:
-    s, op = rand_operator(rng, ctx, atoms=0.5)
+    s, op = rand_operator(rng, ctx, atoms=0.5, index=index)
     with quiet():
         try:
             m = dense.matrix(op)
